@@ -65,6 +65,26 @@ class Ctx:
         self.extra: Dict[str, Any] = {}
         self._cur: Optional[RuleInfo] = None
         self._distinct: set = set()
+        self._role_names: Dict[int, str] = {}
+
+    def fname(self, fn) -> str:
+        """stable label of a function for finding keys: role name for
+        role-discovered private helpers, otherwise Class.method."""
+        if not self._role_names and self.prog is not None:
+            try:
+                from .roles import roles_of
+
+                R = roles_of(self.prog)
+                for role in ("incumbent_update", "poll_step", "search_step", "init_mesh", "init_optim_state", "bounds_check", "seed_fn", "filter_fn"):
+                    try:
+                        f = getattr(R, role)
+                    except Exception:
+                        f = None
+                    if f is not None:
+                        self._role_names[id(f.node)] = (f"{f.cls.name}.<{role}>" if f.cls else f"<{role}>")
+            except Exception:
+                self._role_names[-1] = ""
+        return self._role_names.get(id(fn.node), fn.short)
 
     # rule bookkeeping -----------------------------------------------------
     def rule(self, id: str, decides: str, floor: int = 1, policy: str = "fail-closed") -> RuleInfo:
@@ -94,7 +114,7 @@ class Ctx:
         r.instances += 1
         r.failed += 1
         if isinstance(fn, FunctionInfo):
-            module, func = fn.module.relpath, fn.short
+            module, func = fn.module.relpath, self.fname(fn)
         else:
             module, func = str(fn), "-"
         if construct is None:
@@ -109,7 +129,7 @@ class Ctx:
         r.instances += 1
         r.failed += 1
         if isinstance(where, FunctionInfo):
-            module, func = where.module.relpath, where.short
+            module, func = where.module.relpath, self.fname(where)
         else:
             module, func = str(where), "-"
         f = Finding(self.prop, r.id, module, func, f"<missing: {what}>", f"required construct not found: {what}")
